@@ -784,6 +784,41 @@ def check(case):
             if not _close(o1, o2, 1e-6):
                 r.fail("refit-output-differs-from-fresh-fit", "%s.%s after %s;%s" % (name, mname, v1, v2))
                 break
+    if v1 == v2 and not r.violations:
+        # the caller REUSES its arrays: fit, update the same array objects in place, fit a new estimator on them;
+        # the result must be that of fresh copies with the new contents (nothing remembered by object identity)
+        try:
+            a3 = e["args"](v1)
+            e3 = e["make"](a3)
+            (refit(e3, a3, v1) if refit else e["fit"](e3, a3))
+            changed_any = False
+            for k, v in a3.items():
+                for arr in (v if isinstance(v, list) else [v]):
+                    if isinstance(arr, np.ndarray) and arr.dtype.kind == "f" and arr.flags.writeable and k not in ("cell", "cov"):
+                        arr *= 1.25
+                        arr += 0.125
+                        changed_any = True
+            if changed_any:
+                e4 = e["make"](a3)
+                (refit(e4, a3, v1) if refit else e["fit"](e4, a3))
+                fr = {k: ([x.copy() if isinstance(x, np.ndarray) else x for x in v] if isinstance(v, list) else (v.copy() if isinstance(v, np.ndarray) else v)) for k, v in a3.items()}
+                e5 = e["make"](fr)
+                (refit(e5, fr, v1) if refit else e["fit"](e5, fr))
+                r.transitions += 3
+                d = _diff_state(_state(e4), _state(e5), e.get("loose", ()))
+                if d:
+                    r.fail("result-depends-on-array-identity", "%s: same array objects updated in place vs fresh copies: %s" % (name, "; ".join(d)[:300]))
+                else:
+                    for mname, fn in e["methods"]:
+                        if mname == "sample":
+                            continue
+                        o1, o2 = _plain(fn(e4, a3)), _plain(fn(e5, fr))
+                        r.transitions += 2
+                        if not _close(o1, o2, 1e-9):
+                            r.fail("result-depends-on-array-identity", "%s.%s: same array objects updated in place vs fresh copies" % (name, mname))
+                            break
+        except Exception as ex:
+            r.fail("call-fails-after-in-place-update:%s" % type(ex).__name__, "%s: %r" % (name, ex))
     r.nontrivial = v1 != v2
     return _finish(r, case)
 
